@@ -178,6 +178,10 @@ class Engine(Interp):
                 ms.asked_carry = None
         if s2.aux:
             s2.aux = tuple((h, l, pos(d)) for h, l, d in s2.aux)
+        s2.pendload = None
+        if s2.hitpairs:
+            s2.hitpairs = tuple((first_alias[a], first_alias[b], m, kt) for a, b, m, kt in s2.hitpairs
+                                if a in first_alias and b in first_alias)[-4:]
         for k in sorted(s2.ghost, key=str):
             g = s2.ghost[k]
             s2.ghost[k] = (pos(g[0]), g[1])
@@ -202,7 +206,8 @@ class Engine(Interp):
             mp.append((mid, ms.len, ms.cap, ms.holes, ms.extras, ms.hole_rng, ms.extra_rng, ms.contents,
                        ms.exempt, ms.dead, ms.owned_extras, ms.examined, ms.pending, ms.asked))
         return (fr, ob, tuple(mp), st.unwinding, tuple(sorted(st.pairs.items(), key=str)),
-                tuple(sorted(((k, g[1]) for k, g in st.ghost.items()), key=str)), st.aux, st.guards)
+                tuple(sorted(((k, g[1]) for k, g in st.ghost.items()), key=str)), st.aux, st.guards,
+                tuple(sorted(st.arrinv.items(), key=str)), st.hitpairs)
 
     def loop_join(self, table, key, st):
         """at a loop head: returns the state to continue with, or None when subsumed"""
@@ -444,12 +449,18 @@ class Engine(Interp):
             out = []
             for s, v in self.eval_rvalue(st, fid, stmt['rv']):
                 ptr = self.eval_place(s, fid, stmt['place'])
+                if 'repeat' in stmt['rv'] and v[0] == 'oarr' and not stmt['place']['proj']:
+                    # an array built in place ([x; n]): it gets an identity of its own (the place it is built in)
+                    v = ('oarr', ('rep', fid, stmt['place']['local']), v[2])
+                    s.arrinv.pop(v[1], None)
                 if v[0] == 'opq' and not stmt['place']['proj']:
                     # an opaque value (e.g. an element loaded from a local array of plain data) stored into a
                     # local of a plain-data type: from here on it is an unknown value OF THAT TYPE
                     ty = body.locals[stmt['place']['local']]['ty']
                     if plain_data(ty):
-                        v = self.mk_unknown(s, ty, v[1] if isinstance(v[1], tuple) else (v[1],), self.gs_of(s, fid))
+                        tg = v[1] if isinstance(v[1], tuple) else (v[1],)
+                        v = self.mk_unknown(s, ty, tg, self.gs_of(s, fid))
+                        self.note_loaded(s, tg, v)
                 out.extend(self.store(s, ptr, v))
             return out
         if k == 'dead':
